@@ -63,3 +63,23 @@ Definition with_end (t : rx) (e : N) : rx := XCat [t; XPos KEnd e].
 Definition glushkov_statement : Prop :=
   forall t e, shape t -> ~ In e (positions t) ->
   forall w, Lrx t w <-> glushkov_word (with_end t e) e w.
+
+(** Every [Or] below has at least one alternative (what the parser guarantees: [|] and [||] are
+    binary operators).  Then every sub-tree has a non-empty language and every position is useful. *)
+Fixpoint ors_nonempty (t : rx) : bool :=
+  match t with
+  | XEps | XPos _ _ => true
+  | XCat cs => forallb ors_nonempty cs
+  | XOr cs => match cs with [] => false | _ => forallb ors_nonempty cs end
+  | XStar c => ors_nonempty c
+  end.
+
+(** Statement of "every position is useful" (proved in Proofs/Useful.v): in the tables of the root
+    [with_end t e], [firstpos] is not empty, and from every position of [t] a chain of [followpos]
+    edges leads to a position that the end marker follows. *)
+Definition useful_statement : Prop :=
+  forall t e, shape t -> ors_nonempty t = true -> ~ In e (positions t) ->
+    firstpos (with_end t e) <> [] /\
+    forall p, In p (positions t) ->
+      exists r, chain (followpos (with_end t e)) p r /\
+                In (last r p, e) (followpos (with_end t e)).
